@@ -25,6 +25,9 @@ func c05State() *round5 {
 	pt := func(v uint64) curve.Point { return sc(v).ActOnBase() }
 	one, nonce := new(saferith.Int).SetUint64(1), new(saferith.Nat).SetUint64(3)
 	pks := map[party.ID]*paillier.PublicKey{"a": zk.ProverPaillierPublic, "b": zk.VerifierPaillierPublic, "c": zk.VerifierPaillierPublic}
+	// one ciphertext per key, shared by all table entries (the engine re-executes this set-up on every path)
+	encP, encV := zk.ProverPaillierPublic.EncWithNonce(one, nonce), zk.VerifierPaillierPublic.EncWithNonce(one, nonce)
+	cts := map[party.ID]*paillier.Ciphertext{"a": encP, "b": encV, "c": encV}
 	r1 := &round1{Helper: helper, PublicKey: pt(50), SecretECDSA: sc(5), SecretPaillier: zk.ProverPaillierSecret, Paillier: pks,
 		Pedersen: map[party.ID]*pedersen.Parameters{}, ECDSA: map[party.ID]curve.Point{}, Message: []byte("m")}
 	r2 := &round2{round1: r1, K: map[party.ID]*paillier.Ciphertext{}, G: map[party.ID]*paillier.Ciphertext{}, BigGammaShare: map[party.ID]curve.Point{},
@@ -36,7 +39,7 @@ func c05State() *round5 {
 	for i, id := range c05IDs {
 		v := uint64(i + 1)
 		r1.Pedersen[id], r1.ECDSA[id] = zk.Pedersen, pt(10+v)
-		r2.K[id], r2.G[id] = pks[id].EncWithNonce(one, nonce), pks[id].EncWithNonce(one, nonce)
+		r2.K[id], r2.G[id] = cts[id], cts[id]
 		r2.BigGammaShare[id] = pt(20 + v)
 		r3.DeltaShareAlpha[id], r3.DeltaShareBeta[id], r3.ChiShareAlpha[id], r3.ChiShareBeta[id] = one, one, one, one
 		r4.DeltaShares[id], r4.BigDeltaShares[id] = sc(30+v), pt(40+v)
